@@ -180,11 +180,24 @@ class SbxRun:
         # ---- reference first (same inputs, same fault)
         refres = None
         use_ref = self.ref is not None and not op.get('noref')
-        if use_ref and kind == 'call' and not callable(self.ref.ns.get(op['fn'])):
+        if use_ref and kind == 'call' and not (callable(self.ref.ns.get(op['fn'])) and callable(sb.data.get(op['fn']))):
             # pedal's call() returns early (nothing is executed, inputs are not queued) when the
             # function does not exist -- e.g. an earlier run crashed before defining it
             use_ref = False
             o['skipped'] = 'no-such-function'
+        if use_ref and kind in ('evaluate', 'run') and (op.get('expr') or op.get('code')):
+            # instructor code that uses student functions: only meaningful when they exist on both sides
+            try:
+                names = set(compile(op.get('expr') or op.get('code'), '<names>', 'exec').co_names)
+            except SyntaxError:
+                names = set()
+            import builtins as _b
+            missing = [n for n in names if n in self.ref.ns and n not in sb.data and not hasattr(_b, n)]
+            if missing:
+                use_ref = False
+                o['skipped'] = 'no-such-function'
+        if self.ref is not None and op.get('noref') and inputs is not None:
+            self.ref.set_inputs(inputs if isinstance(inputs, (list, tuple)) else [inputs])
         if use_ref:
             if inputs is not None:
                 self.ref.set_inputs(inputs if isinstance(inputs, (list, tuple)) else [inputs])
@@ -204,6 +217,13 @@ class SbxRun:
                 refres['names'] = {k: canon(v) for k, v in self.ref.student_names().items()}
             o['ref'] = refres
 
+        if o.get('skipped') and kind != 'call':
+            o.update(self.io_state())
+            o['escaped'] = None
+            o['new_contexts'] = []
+            o['new_feedback'] = []
+            o['not_executed'] = True
+            return o
         # ---- the real thing
         before = world.snapshot_globals()
         n_fb = len(self.report.feedback)
